@@ -59,6 +59,7 @@ type Runner struct {
 
 	mu          sync.Mutex
 	outstanding int
+	waits       int // outstanding calls that only wait for the pipeline to end
 	ctl         []*CtlResult
 }
 
@@ -72,6 +73,9 @@ func (r *Runner) Call(kind string, f func(ctx context.Context) error) *CtlResult
 	cr := &CtlResult{Kind: kind}
 	r.mu.Lock()
 	r.outstanding++
+	if kind == "wait" {
+		r.waits++
+	}
 	r.ctl = append(r.ctl, cr)
 	r.mu.Unlock()
 	cr.CallIdx = w.Log.Add(Event{Kind: EvCtlCall, Comp: kind, Src: -1, Seq: -1})
@@ -87,6 +91,9 @@ func (r *Runner) Call(kind string, f func(ctx context.Context) error) *CtlResult
 		cr.RetIdx = w.Log.Add(Event{Kind: EvCtlRet, Comp: kind, Src: -1, Seq: -1, OK: err == nil, Info: truncate(cr.Err, 300)})
 		cr.Returned = true
 		r.outstanding--
+		if kind == "wait" {
+			r.waits--
+		}
 		r.mu.Unlock()
 	}()
 	return cr
@@ -96,6 +103,14 @@ func (r *Runner) Outstanding() int {
 	r.mu.Lock()
 	defer r.mu.Unlock()
 	return r.outstanding
+}
+
+// OutstandingCalls counts outstanding control calls other than pure waits: control calls are
+// issued one at a time per pipeline, waits may overlap (the quantifier of C11).
+func (r *Runner) OutstandingCalls() int {
+	r.mu.Lock()
+	defer r.mu.Unlock()
+	return r.outstanding - r.waits
 }
 
 func (r *Runner) Issue(a ClientAction) {
@@ -188,6 +203,15 @@ func RunCaseOpts(c *Case, pick func(n int) int, o RunOpts) *Result {
 	if c.GateCallbacks {
 		w.GateCallbacks()
 	}
+	if c.GateStatus && w.Hooks.OnStatus == nil {
+		// The lifecycle's status write has returned (the new status is visible) but the caller has
+		// not continued yet: exactly the window in which runs publish / clean up their map entries.
+		w.Hooks.OnStatus = func(id string, st pipeline.Status, after bool) {
+			if after {
+				_ = w.Sched.Gate(context.Background(), "status-written "+st.String())
+			}
+		}
+	}
 	defer w.Close()
 	if prepare != nil {
 		prepare(w, r)
@@ -216,6 +240,9 @@ func RunCaseOpts(c *Case, pick func(n int) int, o RunOpts) *Result {
 	step := 0
 	for {
 		for len(client) > 0 && client[0].AtStep <= step {
+			if client[0].Kind != "wait" && r.OutstandingCalls() > 0 {
+				break // one control call at a time; retried after the next step
+			}
 			r.Issue(client[0])
 			client = client[1:]
 		}
@@ -235,8 +262,11 @@ func RunCaseOpts(c *Case, pick func(n int) int, o RunOpts) *Result {
 		}
 		// The world is idle: nothing pending, nothing logged for `idle`.
 		st, _ := w.Status()
-		out := r.Outstanding()
+		out := r.OutstandingCalls()
 		if len(client) > 0 {
+			if client[0].Kind != "wait" && out > 0 && time.Since(silentSince) <= Quiet {
+				continue // the previous control call has not returned yet
+			}
 			if client[0].Kind == "start" && !isTerminal(st) && time.Since(silentSince) <= Quiet {
 				// "started again afterwards": a restart is only meaningful once the run has ended
 				if out == 0 && (st == pipeline.StatusRunning || st == pipeline.StatusRecovering) && finalStops < 6 {
@@ -257,7 +287,14 @@ func RunCaseOpts(c *Case, pick func(n int) int, o RunOpts) *Result {
 		if out == 0 && start.Returned && start.err != nil && !isTerminal(st) && st != pipeline.StatusRunning && st != pipeline.StatusRecovering {
 			break // never started
 		}
-		if out == 0 && isTerminal(st) {
+		if out == 0 && isTerminal(st) && r.Outstanding() == 0 {
+			break
+		}
+		if out == 0 && isTerminal(st) && time.Since(silentSince) > Quiet {
+			// a wait that never returns although the pipeline has ended
+			res.Wedged = true
+			res.Stacks = conduitStacks()
+			res.WedgeInfo = fmt.Sprintf("pipeline ended (%s) but %d wait call(s) never returned", st, r.Outstanding())
 			break
 		}
 		if out == 0 && (st == pipeline.StatusRunning || st == pipeline.StatusRecovering) && finalStops < 6 {
